@@ -9,7 +9,7 @@ import copy
 
 from checks import _engine_base as B
 from checks._engine_base import config_class, TIME_NOTE  # noqa
-from sim import enginesim, case as C, kernel, sigint
+from sim import enginesim, case as C, kernel, sigint, fjmodel, screen
 from sim import gen as G
 
 ID = 'C18'
@@ -185,7 +185,187 @@ def run_sigint(case):
                                         sorted(states)])}
 
 
+# ---------------------------------------------------------------- F4 through the real PcIO / KeyboardIO / screen stack
+
+class StubWindow:
+    """stands in for pygame_window.PygameWindow (pygame is not installed): the window is 'closed by the user' at the
+    p-th event pump, which raises KeyboardInterrupt from inside the device callback exactly like the real window"""
+
+    def __init__(self, close_at_pump):
+        from collections import deque
+        self.key_events = deque()
+        self.close_at = close_at_pump
+        self.pumps = 0
+        self.closed = False
+        self.fired = False
+
+    def ensure_open(self, width, height):
+        pass
+
+    def draw(self, width, height, rgb):
+        pass
+
+    def pump_events(self):
+        if self.closed:
+            return
+        n = self.pumps
+        self.pumps += 1
+        if n == self.close_at:
+            self.closed = True
+            self.fired = True
+            raise KeyboardInterrupt
+
+
+class ModelPcDevice:
+    """the reference machine's device for the pc stack: documented keyboard protocol with no key events (status nibble
+    0 per poll, one window pump per poll), reference screen decoder on the output side, window closed at pump p"""
+
+    def __init__(self, w, close_at):
+        self.w = w
+        self.close_at = close_at
+        self.pumps = 0
+        self.pending = 0
+        self.bits = []
+        self.reads = 0
+        self.closed = False
+
+    def attach_memory(self, mem):
+        self.ref = screen.RefScreen(self.w, mem)
+        self._frames_seen = 0
+
+    def _pump(self):
+        if self.closed:
+            return
+        n = self.pumps
+        self.pumps += 1
+        if n == self.close_at:
+            self.closed = True
+            raise KeyboardInterrupt
+
+    def write_bit(self, bit):
+        self.bits.append(1 if bit else 0)
+        self.ref.write_bit(bit)
+        if len(self.ref.frames) > self._frames_seen:      # a presented frame pumps the window once
+            self._frames_seen = len(self.ref.frames)
+            self._pump()
+
+    def read_bit(self):
+        self.reads += 1
+        if self.pending == 0:
+            self._pump()
+            self.pending = 4
+        self.pending -= 1
+        return False
+
+
+def gen_pcstack(rng, index, tier):
+    for _ in range(8):
+        case, meta = G.gen_case(rng, 'c18')
+        if case['w'] < 16:
+            continue
+        case['tags'] = meta['tags']
+        case['input_bits'] = [0] * 64
+        m, obs = enginesim.pre_run(rng, case)
+        if m is None:
+            continue
+        reads = sum(1 for e in obs['log'] if e[0] == 'r')
+        if reads == 0:
+            continue
+        break
+    else:
+        return None
+    case['kind'] = 'pcstack'
+    polls = (reads + 3) // 4
+    case['close_at'] = sorted(set([0, rng.randrange(polls), polls - 1]))
+    ring = rng.choice([None, 0, 3, 10])
+    case['configs'] = [{'engine': 'native', 'last_ops': ring}, {'engine': 'fast', 'last_ops': ring},
+                       {'engine': 'featured', 'last_ops': ring},
+                       {'engine': 'native', 'last_ops': ring, 'env': {'FLIPJUMP_NO_FLAT': '1'}}]
+    return case
+
+
+def run_pcstack(case):
+    from flipjump.interpreter import fjm_run
+    from flipjump.interpreter.io_devices.pygame_window import PcIO, InteractiveScreen, WindowKeyEventSource
+    from flipjump.interpreter.io_devices.KeyboardIO import KeyboardIO
+    from flipjump.interpreter.io_devices import ScreenIO
+    from flipjump.utils.exceptions import IOReadOnEOF
+    path = enginesim.image_path()
+    C.write_image(case, path)
+    violations = []
+    faults = {'device:kbd@pc-window-close': [0, 0]}
+    states = set()
+    steps = 0
+    pw = case['probe_words']
+    for close_at in case['close_at']:
+        for cfg in case['configs']:
+            # reference
+            m = fjmodel.Machine(case['w'], C.case_segments(case), C.case_words(case), cfg.get('last_ops'))
+            md = ModelPcDevice(case['w'], close_at)
+            md.attach_memory(fjmodel.ModelMemory(m))
+            try:
+                cause, addr = fjmodel.run(m, md, IOReadOnEOF, 2000)
+                exp_out = ('term', cause, addr)
+            except KeyboardInterrupt:
+                exp_out = ('term', 'keyboard-interrupt', None)
+            except screen.RefScreenError:
+                exp_out = ('raise', 'IODeviceException')
+            except (fjmodel.StepCap, ValueError):
+                continue
+            exp = {'outcome': exp_out, 'ops': m.count if exp_out[0] == 'term' else None,
+                   'last_ops': (None if m.last_ops is None else list(m.last_ops)) if exp_out[0] == 'term' else None,
+                   'bits': md.bits, 'final': tuple(m.mem.get(a, 0) for a in pw)}
+            # the real stack
+            ScreenIO.time = screen._FakeTime()
+            win = StubWindow(close_at)
+            scr = InteractiveScreen(window=win)
+            bits = []
+            orig_wb = scr.write_bit
+            dev = PcIO(scr, KeyboardIO(WindowKeyEventSource(win)))
+            dmem = {}
+            orig_attach = dev.attach_memory
+
+            def attach(dm, _o=orig_attach, _d=dmem):
+                _d['dm'] = dm
+                _o(dm)
+            dev.attach_memory = attach
+            C.set_engine_env(cfg)
+            try:
+                st = fjm_run.run(path, io_device=dev, last_ops_debugging_list_length=cfg.get('last_ops'),
+                                 profile=(cfg['engine'] == 'featured'))
+                obs_out = ('term', str(st.termination_cause), st.memory_error_address)
+                obs = {'outcome': obs_out, 'ops': st.op_counter,
+                       'last_ops': None if st.last_ops_addresses is None else list(st.last_ops_addresses)}
+            except kernel.WatchdogTimeout:
+                raise
+            except BaseException as e:  # noqa
+                obs = {'outcome': ('raise', type(e).__name__), 'ops': None, 'last_ops': None}
+            obs['final'] = tuple(dmem['dm'].read_word(a) for a in pw) if 'dm' in dmem else None
+            steps += obs['ops'] or 0
+            faults['device:kbd@pc-window-close'][0] += 1
+            faults['device:kbd@pc-window-close'][1] += 1 if win.fired else 0
+            states.add(f"{enginesim.cfg_class(cfg)}|pcstack|{exp_out[0]}:{exp_out[1]}")
+            for f, name in (('outcome', 'termination'), ('ops', 'op-count'), ('last_ops', 'last-ops'),
+                            ('final', 'memory-state')):
+                if exp[f] != obs[f] and not (f == 'final' and obs[f] is None):
+                    violations.append({'clause': name, 'config': cfg, 'config_name': enginesim.cfg_name(cfg),
+                                       'expected': C._j(exp[f]) if f != 'final' else 'model memory',
+                                       'observed': C._j(obs[f]) if f != 'final' else 'differs',
+                                       'fault': {'kind': 'kbd-pc-window', 'close_at_pump': close_at},
+                                       'exp_outcome': C._j(exp_out), 'obs_outcome': C._j(obs['outcome'])})
+                    break
+            if violations:
+                break
+        if violations:
+            break
+    return {'violations': violations[:3], 'probes': {'pcstack_case': 1, f"w{case['w']}": 1}, 'faults': faults,
+            'states': states, 'steps': steps, 'nontrivial': faults['device:kbd@pc-window-close'][1] > 0,
+            'digest': kernel.digest_of([case, [[v['clause'], v['config_name']] for v in violations], sorted(states)])}
+
+
 def gen(rng, index, tier):
+    if index % 16 == 5:
+        return gen_pcstack(rng, index, tier)
     if index % 64 == 1:
         return gen_sigint(rng, index, tier, native=True)
     if index % 16 == 3:
@@ -219,6 +399,8 @@ def gen(rng, index, tier):
 def run(case):
     if case.get('kind') == 'sigint':
         return run_sigint(case)
+    if case.get('kind') == 'pcstack':
+        return run_pcstack(case)
     faults = {}
     states = set()
     violations = []
@@ -276,6 +458,11 @@ def run_single(case):
 
 
 def minimise(case, violation):
+    if case.get('kind') == 'pcstack':
+        c = copy.deepcopy(case)
+        c['configs'] = [violation['config']]
+        c['close_at'] = [violation['fault']['close_at_pump']]
+        return c, violation
     if case.get('kind') == 'sigint':
         c = copy.deepcopy(case)
         flt = violation['fault']
@@ -293,6 +480,9 @@ def minimise(case, violation):
 
 
 def signature(case, violation):
+    if case.get('kind') == 'pcstack':
+        return {'clause': violation.get('clause'), 'config_class': enginesim.cfg_class(violation.get('config')),
+                'w': case['w'], 'fault_kind': 'kbd-pc-window'}
     if case.get('kind') == 'sigint':
         return {'clause': violation.get('clause'), 'config_class': enginesim.cfg_class(violation.get('config')),
                 'w': case['w'], 'fault_kind': 'sigint', 'family': case.get('family')}
@@ -303,3 +493,7 @@ def signature(case, violation):
     sig['fault_kind'] = (violation.get('fault') or {}).get('kind')
     sig['exp_outcome_class'] = (violation.get('exp_outcome') or [None, None])[:2]
     return sig
+
+
+def adequacy(tier, agg):
+    return B.adequacy(tier, agg, ['input', 'output', 'faulted_runs', 'sigint_runs', 'sigint_native-poll', 'sigint_python-instr', 'pcstack_case'])
